@@ -43,13 +43,22 @@ _TRUTH = None
 _WRAPPED = False
 
 
+_OWN_UNITS = 'BKMGT'
+
+
 def _own_mb(value):
-    """The harness's own reading of a memory/disk quantity, in MB."""
+    """The harness's own reading of a memory/disk quantity: exact megabytes
+    (2**20 bytes) as a float.  A trailing 'B' after the unit letter makes the
+    unit decimal ('1GB' is 10**9 bytes, '1G' is 2**30)."""
     text = str(value).strip().upper()
     if text in ('0', ''):
         return 0.0
+    base = 1024
+    if len(text) > 1 and text[-1] == 'B' and text[-2] in 'KMGT':
+        base = 1000
+        text = text[:-1]
     num, unit = int(text[:-1]), text[-1]
-    return float({'K': num // 1024, 'M': num, 'G': num * 1024}[unit])
+    return num * float(base ** _OWN_UNITS.index(unit)) / float(1 << 20)
 
 
 def _own_cpu(value):
@@ -83,6 +92,9 @@ class MasterTruth:
         self.down = {}            # server -> [smin, smax] (observation based)
         self.last_not_down = {}   # server -> time last observed not down
         self.view = set()         # presence as the master has been told
+        self.absent = {}          # server -> [tmin, tmax]: the master handled
+        #                           a presence snapshot without the server
+        #                           while its presence node was gone
         self.frozen = set()       # (informational)
         self.marks = {}           # app -> server it was explicitly marked on
         self.stored_state = None  # callable: server -> recorded state
@@ -195,6 +207,15 @@ class MasterTruth:
     # -- C08: when did each server go down, from the harness's observations
     def down_interval(self, sname):
         iv = self.down.get(sname)
+        return tuple(iv) if iv else None
+
+    def absent_interval(self, sname):
+        """When the master was told that the server is gone (it handled a
+        presence snapshot that does not list it, the presence node being gone
+        at that moment too) and nothing since has changed the server's state
+        (no state event, reload, restart): that is the server going down,
+        whatever the model calls it."""
+        iv = self.absent.get(sname)
         return tuple(iv) if iv else None
 
     def state_of(self, sname):
@@ -497,6 +518,7 @@ class World:
             if data:
                 truth.groups[name] = data.get('count', 0)
         truth.view = set(zk.children(z.SERVER_PRESENCE) or [])
+        truth.absent = {}
         truth.frozen = set()
         for name in truth.srv:
             stored = self._zk_obj(z.path.placement(name))
@@ -535,6 +557,13 @@ class World:
             for name in events or []:
                 if name in children and name in truth.srv:
                     self._truth_server(name)     # reloaded on coming up
+            now = self.clock.peek()
+            for name in sorted(truth.srv):
+                if name in children or self.zk.nodes.get(
+                        z.path.server_presence(name)) is not None:
+                    truth.absent.pop(name, None)
+                elif name not in truth.absent:
+                    truth.absent[name] = [self._proc_t0, now]
         elif path == z.SCHEDULED:
             target = set(children)
             for name in sorted(set(truth.apps) - target):
@@ -564,6 +593,9 @@ class World:
                                              or []))
                     for name in names:
                         self._truth_server(name)
+                        truth.absent.pop(name, None)
+                elif resource in ('cell', 'buckets'):
+                    truth.absent.clear()
                 elif resource == 'server_state':
                     if payload:
                         name, state = payload[0], payload[1]
@@ -572,6 +604,7 @@ class World:
                         # possibly long after it was posted): the harness's
                         # bounds on when the server went down start afresh
                         truth.down.pop(name, None)
+                        truth.absent.pop(name, None)
                         if name not in truth.srv:
                             continue
                         if state == 'frozen':
@@ -684,6 +717,10 @@ class World:
         names = [sname] if sname else list(self.truth.down)
         for name in names:
             self.truth.down.pop(name, None)
+        if sname:
+            self.truth.absent.pop(sname, None)
+        else:
+            self.truth.absent.clear()
 
     def _guard(self, where, fn):
         try:
@@ -885,6 +922,7 @@ class World:
         global _FREEZE_LOG
         cellp = self.prop in CELL_PROPS
         events = self.truth_before_process(path, children) if cellp else None
+        self._proc_t0 = self.clock.peek()
         _FREEZE_LOG = [] if cellp else None
         try:
             # Master.process is wrapped by utils.exit_on_unhandled (logs and
@@ -1283,6 +1321,16 @@ class World:
 
 MEM_SPELL = [lambda m: '%dM' % m, lambda m: '%dK' % (m * 1024),
              lambda m: ('%dG' % (m // 1024)) if m % 1024 == 0 else '%dM' % m]
+# capacities only: spellings that are not a whole number of megabytes (the
+# declared capacity is then a fraction of a megabyte above what the scheduler
+# may hand out); demands stay whole-megabyte quantities
+CAP_SPELL = MEM_SPELL + [
+    lambda m: '%dK' % (m * 1024 + 500),
+    lambda m: '%dK' % (m * 1024 + 1023),
+    lambda m: '%dMB' % m,
+    lambda m: '%dKB' % (m * 1000 + 1),
+    lambda m: ('%dGB' % (m // 256)) if m >= 256 else '%dMB' % m,
+]
 CPU_SPELL = [lambda c: '%d%%' % c, lambda c: '%d' % c, lambda c: c]
 
 
@@ -1616,10 +1664,10 @@ def server_spec(rng, cfg, name):
         traits.append(rng.choice(cfg['node_traits']))
     return {'name': name, 'parent': rng.choice(racks),
             'partition': rng.choice(cfg['partitions']),
-            'memory': rng.choice(MEM_SPELL)(mem),
+            'memory': rng.choice(CAP_SPELL)(mem),
             'cpu': rng.choice(CPU_SPELL)(
                 rng.randint(cfg['cap_lo'], cfg['cap_hi']) * 10),
-            'disk': rng.choice(MEM_SPELL)(
+            'disk': rng.choice(CAP_SPELL)(
                 rng.randint(cfg['cap_lo'], cfg['cap_hi']) * 256),
             'traits': traits,
             'up_since': cfg['start'] - rng.choice([0, 3600, DAY, 5 * DAY,
